@@ -1376,6 +1376,7 @@ func (u *Unit) execForLoop(n *ast.ForStmt, orig *ast.ForStmt, st *State, f Flow)
 	}
 	pos := n.Body.Lbrace + 1
 	u.checkInvariants(lb, st, pos, "init", nil)
+	u.checkLoopFrameInit(lb, st)
 	head := st.clone()
 	he := u.newEv(head)
 	u.havocLoop(he, n)
@@ -1458,6 +1459,7 @@ func (u *Unit) execRange(n *ast.RangeStmt, st *State, f Flow) {
 			}
 		}
 		u.checkInvariants(lb, st, pos, "init", nil)
+		u.checkLoopFrameInit(lb, st)
 		head := st.clone()
 		he := u.newEv(head)
 		u.havocLoop(he, n)
@@ -1501,6 +1503,7 @@ func (u *Unit) execRange(n *ast.RangeStmt, st *State, f Flow) {
 		idxName := "rangeidx"
 		st.named[idxName] = Term{S: "0", Sort: sInt, T: types.Typ[types.Int], Signed: true}
 		u.checkInvariants(lb, st, pos, "init", nil)
+		u.checkLoopFrameInit(lb, st)
 		head := st.clone()
 		he := u.newEv(head)
 		u.havocLoop(he, n)
@@ -1759,6 +1762,20 @@ func (u *Unit) assumeLoopFrame(st *State) {
 	for _, f := range u.frameFormula(u.block, st, u.entry, u.bodyPos) {
 		st.assume(f)
 	}
+}
+
+// checkLoopFrameInit: the frame the loop head is about to assume (relative to the unit's entry)
+// must already hold when the loop is entered; otherwise a frame violation committed before a loop
+// that havocs the same heap would be forgotten at the head (DESIGN 11.6 E13).
+func (u *Unit) checkLoopFrameInit(lb *Block, st *State) {
+	if !u.hasFrame() || u.entry == nil {
+		return
+	}
+	fs := u.frameFormula(u.block, st, u.entry, u.bodyPos)
+	if len(fs) == 0 {
+		return
+	}
+	u.addObl(u.loopOblName(lb, "init#frame"), u.props, st, smtAnd(fs...), "implicit invariant holds on loop entry: objects outside the modifies clause unchanged so far", nil)
 }
 
 func (u *Unit) checkLoopFrame(lb *Block, st *State) {
